@@ -678,3 +678,673 @@ Proof.
   assert (holdsX (pcof ls u) = true) as Hu by (apply lpend_holdsX; congruence).
   destruct (excl_facts _ _ _ H1 Ht u) as [_ E2]. auto.
 Qed.
+
+Definition st_same (h h' : ghost) : Prop :=
+  clock h' = S (clock h) /\ tsub h' = tsub h /\ tinv h' = tinv h /\ tpush h' = tpush h /\ tret h' = tret h /\
+  texec h' = texec h /\ tcount h' = tcount h.
+
+Lemma fupd_eq {A} (f : nat -> A) k v : fupd f k v k = v.
+Proof. unfold fupd. rewrite Nat.eqb_refl. reflexivity. Qed.
+Lemma fupd_ne {A} (f : nat -> A) k v x : x <> k -> fupd f k v x = f x.
+Proof. unfold fupd. intros H. destruct (Nat.eqb_spec x k); congruence. Qed.
+
+Section SKinds.
+  Variables (g g' : glob) (ls : list loc) (t : nat) (l l' : loc).
+  Hypothesis H1 : Inv1 g ls.
+  Hypothesis HS : SInv g ls.
+  Hypothesis Hl : nth_error ls t = Some l.
+  Let Hp := pcof_at _ _ _ Hl.
+  Ltac xpt u := intros u; ptw Hl; destruct (Nat.eqb_spec u t) as [->|Hne].
+  Ltac sprep :=
+    pose proof (S0 _ _ HS) as A0; pose proof (S1i _ _ HS) as A1i; pose proof (S1p _ _ HS) as A1p;
+    pose proof (S1r _ _ HS) as A1r; pose proof (S1e _ _ HS) as A1e; pose proof (S2 _ _ HS) as A2;
+    pose proof (S3 _ _ HS) as A3; pose proof (S4 _ _ HS) as A4; pose proof (S5 _ _ HS) as A5;
+    pose proof (S6 _ _ HS) as A6; pose proof (S7 _ _ HS) as A7; pose proof (S8 _ _ HS) as A8;
+    pose proof (S9 _ _ HS) as A9; pose proof (S10 _ _ HS) as A10;
+    pose proof (A2 t) as A2t; pose proof (A4 t) as A4t; pose proof (A5 t) as A5t; pose proof (A8 t) as A8t;
+    rewrite Hp in A2t, A4t, A5t, A8t.
+
+  (* a thread whose pc is exclusive is the only one with a local list / between clear and swap *)
+  Lemma others_no_list u : holdsX (at_ l) = true -> u <> t -> lpend (pcof ls u) = [] /\ clr (pcof ls u) = false.
+  Proof.
+    intros Hx Hne. rewrite <- Hp in Hx. split; [eapply lpend_only_owner; eauto|].
+    destruct (clr (pcof ls u)) eqn:E; [exfalso|reflexivity].
+    destruct (excl_facts _ _ _ H1 Hx u) as [_ E2]. apply clr_holdsX in E. auto.
+  Qed.
+
+  Lemma SK_none : st_same (gh g) (gh g') -> ntasks g' = ntasks g -> queue g' = queue g ->
+    (flag g' = flag g \/ clr (at_ l') = true) ->
+    ctask (at_ l') = ctask (at_ l) -> cphase (at_ l') = cphase (at_ l) -> lpend (at_ l') = lpend (at_ l) ->
+    (clr (at_ l) = true -> clr (at_ l') = true) ->
+    (postchk (at_ l') = true -> postchk (at_ l) = true \/ (flag g = false /\ clr (at_ l) = false /\ holdsX (at_ l) = true)) ->
+    SInv g' (upd ls t l').
+  Proof.
+    intros (Ec & Es & Ei & Epu & Er & Ee & En) Hn Hq Hf Hct Hph Hlp Hcl Hpc. sprep.
+    constructor; rewrite ?Ec, ?Es, ?Ei, ?Epu, ?Er, ?Ee, ?En, ?Hn, ?Hq; unfold pst; rewrite ?Epu; fold (pst (gh g)); auto.
+    - intros tk Hk. specialize (A1i tk Hk). lia.
+    - intros tk p Hk. specialize (A1p tk p Hk). lia.
+    - intros tk r Hk. destruct (A1r tk r Hk) as [B1 B2]. split; [lia|auto].
+    - intros tk e Hk. specialize (A1e tk e Hk). lia.
+    - xpt u; [rewrite Hct, Hph; exact A2t|apply A2].
+    - intros tk Hk Hr. specialize (A3 tk Hk Hr). ptw Hl.
+      destruct (Nat.eqb_spec (tsub (gh g) tk) t) as [E|Hne]; [rewrite Hct, <- Hp, <- E|]; auto.
+    - xpt u; [rewrite Hlp; exact A4t|apply A4].
+    - xpt u; [rewrite Hlp; exact A5t|apply A5].
+    - intros tk Hk He. destruct (A6 tk Hk He) as [B|[u B]]; [auto|right]. exists u. ptw Hl.
+      destruct (Nat.eqb_spec u t) as [->|Hne]; [rewrite Hlp, <- Hp|]; auto.
+    - intros tk Hk. destruct (A7 tk Hk) as [B|[B|[u B]]]; auto.
+      + destruct Hf as [Hf|Hf]; [rewrite Hf; auto|]. right; right. exists t. ptw Hl. rewrite Nat.eqb_refl. exact Hf.
+      + right; right. exists u. ptw Hl.
+        destruct (Nat.eqb_spec u t) as [->|Hne]; [rewrite Hp in B; auto|exact B].
+    - xpt u; [|apply A8]. rewrite Hct. intros tk0 Hpo Hc0 f r Hin Hr.
+      destruct (Hpc Hpo) as [B|(B1 & B2 & B3)]; [eapply A8t; eauto|].
+      destruct (A7 f Hin) as [C|[C|[u C]]]; try congruence.
+      destruct (Nat.eq_dec u t) as [->|Hne]; [rewrite Hp in C; congruence|].
+      destruct (others_no_list u B3 Hne). congruence.
+  Qed.
+
+  (* a new submit call *)
+  Lemma SK_new : let n := ntasks g in
+    clock (gh g') = S (clock (gh g)) -> tsub (gh g') = fupd (tsub (gh g)) n t ->
+    tinv (gh g') = fupd (tinv (gh g)) n (clock (gh g)) -> tpush (gh g') = fupd (tpush (gh g)) n None ->
+    tret (gh g') = fupd (tret (gh g)) n None -> texec (gh g') = fupd (texec (gh g)) n None ->
+    tcount (gh g') = fupd (tcount (gh g)) n O ->
+    ntasks g' = S n -> queue g' = queue g -> flag g' = flag g -> at_ l = Idle -> at_ l' = M_try n ->
+    SInv g' (upd ls t l').
+  Proof.
+    intros n Ec Es Ei Epu Er Ee En Hn Hq Hf Hpc Hpc'. sprep. rewrite Hpc in *. cbn [ctask lpend postchk holdsX andb app] in A2t, A4t, A5t, A8t.
+    destruct (A0 n (le_n _)) as (Z1 & Z2 & Z3 & Z4).
+    assert (Qp : forall x, tpush (gh g') x = tpush (gh g) x).
+    { intros x. rewrite Epu. unfold fupd. destruct (Nat.eqb_spec x n); congruence. }
+    assert (Qr : forall x, tret (gh g') x = tret (gh g) x).
+    { intros x. rewrite Er. unfold fupd. destruct (Nat.eqb_spec x n); congruence. }
+    assert (Qe : forall x, texec (gh g') x = texec (gh g) x).
+    { intros x. rewrite Ee. unfold fupd. destruct (Nat.eqb_spec x n); congruence. }
+    assert (Qn : forall x, tcount (gh g') x = tcount (gh g) x).
+    { intros x. rewrite En. unfold fupd. destruct (Nat.eqb_spec x n); congruence. }
+    assert (Qs : forall x, x <> n -> tsub (gh g') x = tsub (gh g) x) by (intros x Hx; rewrite Es; apply fupd_ne; auto).
+    assert (Qi : forall x, x <> n -> tinv (gh g') x = tinv (gh g) x) by (intros x Hx; rewrite Ei; apply fupd_ne; auto).
+    assert (Qpst : forall x, pst (gh g') x = pst (gh g) x) by (intros x; unfold pst; rewrite Qp; reflexivity).
+    constructor; rewrite ?Ec, ?Hn, ?Hq, ?Hf.
+    - intros tk Hk. rewrite Qp, Qr, Qe, Qn. apply A0. lia.
+    - intros tk Hk. destruct (Nat.eq_dec tk n) as [->|Hne]; [rewrite Ei, fupd_eq; lia|].
+      rewrite (Qi _ Hne). assert (tk < n)%nat as Hlt by lia. specialize (A1i tk Hlt). lia.
+    - intros tk p. rewrite Qp. intros Hk. assert (tk <> n) as Hne by congruence. rewrite (Qi _ Hne).
+      specialize (A1p tk p Hk). lia.
+    - intros tk r. rewrite Qr, Qe, Qp. intros Hk. destruct (A1r tk r Hk) as [B1 B2]. split; [lia|exact B2].
+    - intros tk e. rewrite Qe. intros Hk. specialize (A1e tk e Hk). lia.
+    - xpt u.
+      + rewrite Hpc'. cbn [ctask cphase]. intros tk E. inversion E; subst tk. rewrite Qp, Qr, Qe, Es, fupd_eq.
+        repeat split; auto.
+      + intros tk E. destruct (A2 u tk E) as (B1 & B2 & B3 & B4). assert (tk <> n) as Hk by (fold n in B1; lia).
+        rewrite Qp, Qr, Qe, (Qs _ Hk). repeat split; auto.
+    - intros tk Hk. rewrite Qr. intros Hr. ptw Hl. destruct (Nat.eq_dec tk n) as [->|Hk'].
+      + rewrite Es, fupd_eq, Nat.eqb_refl, Hpc'. reflexivity.
+      + rewrite (Qs _ Hk'). assert (tk < n)%nat as Hlt by lia. specialize (A3 tk Hlt Hr).
+        destruct (Nat.eqb_spec (tsub (gh g) tk) t) as [E|_]; [|exact A3].
+        rewrite E, Hp in A3. rewrite ?Hpc in A3. discriminate.
+    - xpt u; intros tk; rewrite Qp, Qe; [rewrite Hpc'; cbn [lpend app]|]; intros Hin.
+      + destruct (A4t tk Hin) as (B1 & B2 & B3). fold n in B1. repeat split; auto.
+      + destruct (A4 u tk Hin) as (B1 & B2 & B3). fold n in B1. repeat split; auto.
+    - xpt u; [rewrite Hpc'; cbn [lpend app]|].
+      + eapply ordered_ext; [|exact A5t]. intros; symmetry; apply Qpst.
+      + eapply ordered_ext; [|exact (A5 u)]. intros; symmetry; apply Qpst.
+    - intros tk. rewrite Qp, Qe. intros Hk He. destruct (A6 tk Hk He) as [B|[u B]]; [auto|right]. exists u. ptw Hl.
+      destruct (Nat.eqb_spec u t) as [->|Hne]; [rewrite Hp in B; rewrite ?Hpc in B; destruct B|exact B].
+    - intros tk Hk. rewrite Qr. destruct (A7 tk Hk) as [B|[B|[u B]]]; auto. right; right. exists u. ptw Hl.
+      destruct (Nat.eqb_spec u t) as [->|Hne]; [rewrite Hp in B; rewrite ?Hpc in B; discriminate|exact B].
+    - xpt u; [rewrite Hpc'; cbn; discriminate|]. intros tk0 Hpo Hc0 f r Hin. rewrite Qr. intros Hr.
+      destruct (A2 u tk0 Hc0) as (B1 & _). assert (tk0 <> n) as Hk by (fold n in B1; lia). rewrite (Qi _ Hk).
+      eapply A8; eauto.
+    - intros tk. rewrite Qn, Qe. apply A9.
+    - intros f k r e'. rewrite Qr, !Qe. intros Hr Hlt Hk He.
+      assert (k <> n) as Hk' by congruence. rewrite (Qi _ Hk') in Hlt. eapply A10; eauto. lia.
+  Qed.
+
+  (* push_back under the list mutex *)
+  Lemma SK_push tk :
+    clock (gh g') = S (clock (gh g)) -> tsub (gh g') = tsub (gh g) -> tinv (gh g') = tinv (gh g) ->
+    tpush (gh g') = fupd (tpush (gh g)) tk (Some (clock (gh g))) ->
+    tret (gh g') = tret (gh g) -> texec (gh g') = texec (gh g) -> tcount (gh g') = tcount (gh g) ->
+    ntasks g' = ntasks g -> queue g' = queue g ++ [tk] -> flag g' = flag g ->
+    at_ l = Q_lockl tk -> at_ l' = Q_unlockl tk -> SInv g' (upd ls t l').
+  Proof.
+    intros Ec Es Ei Epu Er Ee En Hn Hq Hf Hpc Hpc'. sprep. rewrite Hpc in *.
+    cbn [ctask cphase lpend postchk holdsX andb app] in A2t, A4t, A5t, A8t.
+    destruct (A2t tk eq_refl) as (Z1 & Z2 & Z3 & Z4 & Z5).
+    assert (Qp : forall x, x <> tk -> tpush (gh g') x = tpush (gh g) x) by (intros x Hx; rewrite Epu; apply fupd_ne; auto).
+    assert (Qp' : tpush (gh g') tk = Some (clock (gh g))) by (rewrite Epu; apply fupd_eq).
+    assert (Qpst : forall x, x <> tk -> pst (gh g') x = pst (gh g) x) by (intros x Hx; unfold pst; rewrite (Qp _ Hx); reflexivity).
+    assert (Nin : forall u x, In x (lpend (pcof ls u) ++ queue g) -> x <> tk).
+    { intros u x Hin. destruct (A4 u x Hin) as (_ & _ & B). congruence. }
+    assert (Lt : forall u, lpend (pcof (upd ls t l') u) = lpend (pcof ls u)).
+    { intros u. ptw Hl. destruct (Nat.eqb_spec u t) as [->|Hne]; [rewrite Hpc', Hp; reflexivity|reflexivity]. }
+    constructor; rewrite ?Ec, ?Es, ?Ei, ?Er, ?Ee, ?En, ?Hn, ?Hq, ?Hf.
+    - intros x Hk. assert (x <> tk) as Hx by lia. rewrite (Qp _ Hx). apply A0. exact Hk.
+    - intros x Hk. specialize (A1i x Hk). lia.
+    - intros x p Hk. destruct (Nat.eq_dec x tk) as [->|Hx].
+      + rewrite Qp' in Hk. inversion Hk; subst p. specialize (A1i tk Z1). lia.
+      + rewrite (Qp _ Hx) in Hk. specialize (A1p x p Hk). lia.
+    - intros x r Hk. assert (x <> tk) as Hx by congruence. rewrite (Qp _ Hx).
+      destruct (A1r x r Hk) as [B1 B2]. split; [lia|exact B2].
+    - intros x e Hk. specialize (A1e x e Hk). lia.
+    - xpt u.
+      + rewrite Hpc'. cbn [ctask cphase]. intros x E. inversion E; subst x. rewrite Qp'. repeat split; auto. discriminate.
+      + intros x E. destruct (A2 u x E) as (B1 & B2 & B3 & B4). assert (x <> tk) as Hx by congruence.
+        rewrite (Qp _ Hx). repeat split; auto.
+    - intros x Hk Hr. specialize (A3 x Hk Hr). ptw Hl.
+      destruct (Nat.eqb_spec (tsub (gh g) x) t) as [E|_]; [|exact A3].
+      rewrite E, Hp in A3. rewrite Hpc'. exact A3.
+    - intros u x. rewrite Lt, app_assoc. intros Hin. apply in_app_or in Hin as [Hin|[<-|[]]].
+      + rewrite (Qp _ (Nin u x Hin)). apply (A4 u x Hin).
+      + rewrite Qp'. repeat split; auto. discriminate.
+    - intros u. rewrite Lt, app_assoc. apply ordered_app. split; [|split].
+      + eapply ordered_ext; [|exact (A5 u)]. intros x Hin. symmetry. apply Qpst. eapply Nin; eauto.
+      + cbn. split; [intros b []|exact I].
+      + intros a b Ha [<-|[]]. rewrite (Qpst _ (Nin u a Ha)). unfold pst at 2. rewrite Qp'.
+        destruct (A4 u a Ha) as (_ & _ & B). unfold pst. destruct (tpush (gh g) a) as [p|] eqn:E; [|congruence].
+        specialize (A1p a p E). lia.
+    - intros x Hk He. destruct (Nat.eq_dec x tk) as [->|Hx]; [left; apply in_or_app; right; left; reflexivity|].
+      rewrite (Qp _ Hx) in Hk. destruct (A6 x Hk He) as [B|[u B]]; [left; apply in_or_app; auto|right].
+      exists u. rewrite Lt. exact B.
+    - intros x Hin. apply in_app_or in Hin as [Hin|[<-|[]]]; [|auto].
+      destruct (A7 x Hin) as [B|[B|[u B]]]; auto. right; right. exists u. ptw Hl.
+      destruct (Nat.eqb_spec u t) as [->|Hne]; [rewrite Hp in B; discriminate|exact B].
+    - xpt u; [rewrite Hpc'; cbn; discriminate|]. intros tk0 Hpo Hc0 f r Hin Hr.
+      apply in_app_or in Hin as [Hin|[<-|[]]]; [eapply A8; eauto|congruence].
+    - exact A9.
+    - exact A10.
+  Qed.
+
+  (* the submit call returns (queued path: after the flag store; direct path: after the unlock) *)
+  Lemma SK_ret tk :
+    clock (gh g') = S (clock (gh g)) -> tsub (gh g') = tsub (gh g) -> tinv (gh g') = tinv (gh g) ->
+    tpush (gh g') = tpush (gh g) -> tret (gh g') = fupd (tret (gh g)) tk (Some (clock (gh g))) ->
+    texec (gh g') = texec (gh g) -> tcount (gh g') = tcount (gh g) ->
+    ntasks g' = ntasks g -> queue g' = queue g ->
+    (flag g' = true \/ (flag g' = flag g /\ cphase (at_ l) = PhExec)) ->
+    ctask (at_ l) = Some tk -> cphase (at_ l) <> PhNew -> lpend (at_ l) = [] -> clr (at_ l) = false ->
+    at_ l' = Idle -> SInv g' (upd ls t l').
+  Proof.
+    intros Ec Es Ei Epu Er Ee En Hn Hq Hf Hct Hph Hlp Hcl Hpc'. sprep.
+    destruct (A2t tk Hct) as (Z1 & Z2 & Z3 & Z4).
+    assert (Qr : forall x, x <> tk -> tret (gh g') x = tret (gh g) x) by (intros x Hx; rewrite Er; apply fupd_ne; auto).
+    assert (Qr' : tret (gh g') tk = Some (clock (gh g))) by (rewrite Er; apply fupd_eq).
+    assert (Lt : forall u, lpend (pcof (upd ls t l') u) = lpend (pcof ls u)).
+    { intros u. ptw Hl. destruct (Nat.eqb_spec u t) as [->|Hne]; [rewrite Hpc', Hp, Hlp; reflexivity|reflexivity]. }
+    constructor; rewrite ?Ec, ?Es, ?Ei, ?Epu, ?Ee, ?En, ?Hn, ?Hq; unfold pst; rewrite ?Epu; fold (pst (gh g)).
+    - intros x Hk. assert (x <> tk) as Hx by lia. rewrite (Qr _ Hx). apply A0. exact Hk.
+    - intros x Hk. specialize (A1i x Hk). lia.
+    - intros x p Hk. specialize (A1p x p Hk). lia.
+    - intros x r Hk. destruct (Nat.eq_dec x tk) as [->|Hx].
+      + rewrite Qr' in Hk. inversion Hk; subst r. split; [lia|].
+        destruct (cphase (at_ l)); [congruence| |left; tauto].
+        right. destruct (tpush (gh g) tk) as [p|] eqn:E; [|congruence]. exists p. split; auto. specialize (A1p tk p E). lia.
+      + rewrite (Qr _ Hx) in Hk. destruct (A1r x r Hk) as [B1 B2]. split; [lia|exact B2].
+    - intros x e Hk. specialize (A1e x e Hk). lia.
+    - xpt u; [rewrite Hpc'; cbn; discriminate|].
+      intros x E. destruct (A2 u x E) as (B1 & B2 & B3 & B4). assert (x <> tk) as Hx by congruence.
+      rewrite (Qr _ Hx). repeat split; auto.
+    - intros x Hk Hr. assert (x <> tk) as Hx by congruence. rewrite (Qr _ Hx) in Hr. specialize (A3 x Hk Hr). ptw Hl.
+      destruct (Nat.eqb_spec (tsub (gh g) x) t) as [E|_]; [|exact A3]. rewrite E, Hp in A3. congruence.
+    - intros u x. rewrite Lt. apply A4.
+    - intros u. rewrite Lt. apply A5.
+    - intros x Hk He. destruct (A6 x Hk He) as [B|[u B]]; [auto|right]. exists u. rewrite Lt. exact B.
+    - intros x Hin. destruct Hf as [Hf|[Hf Hex]]; [rewrite Hf; auto|]. rewrite Hf.
+      assert (x <> tk) as Hx.
+      { rewrite Hex in Z4. rewrite Hlp in A4t. destruct (A4t x Hin) as (_ & _ & B). destruct Z4. congruence. }
+      rewrite (Qr _ Hx). destruct (A7 x Hin) as [B|[B|[u B]]]; auto. right; right. exists u. ptw Hl.
+      destruct (Nat.eqb_spec u t) as [->|Hne]; [rewrite Hp in B; congruence|exact B].
+    - xpt u; [rewrite Hpc'; cbn; discriminate|]. intros tk0 Hpo Hc0 f r Hin Hr.
+      destruct (Nat.eq_dec f tk) as [->|Hx].
+      + rewrite Qr' in Hr. inversion Hr; subst r. destruct (A2 u tk0 Hc0) as (B1 & _). apply A1i. exact B1.
+      + rewrite (Qr _ Hx) in Hr. eapply A8; eauto.
+    - exact A9.
+    - intros f k r e' Hr Hlt Hk He. destruct (Nat.eq_dec f tk) as [->|Hx].
+      + rewrite Qr' in Hr. inversion Hr; subst r. specialize (A1i k Hk). lia.
+      + rewrite (Qr _ Hx) in Hr. eapply A10; eauto.
+  Qed.
+
+  (* swap(localPending, pending list) under the list mutex *)
+  Lemma SK_swap c : st_same (gh g) (gh g') -> ntasks g' = ntasks g -> queue g' = [] -> flag g' = flag g ->
+    at_ l = DI_lockl c -> at_ l' = DI_unlockl c (queue g) -> SInv g' (upd ls t l').
+  Proof.
+    intros (Ec & Es & Ei & Epu & Er & Ee & En) Hn Hq Hf Hpc Hpc'. sprep.
+    assert (holdsX (at_ l) = true) as Hx by (rewrite Hpc; reflexivity).
+    pose proof (fun u => others_no_list u Hx) as Hoth.
+    rewrite Hpc in *. cbn [ctask cphase lpend postchk holdsX andb app] in A2t, A4t, A5t, A8t.
+    constructor; rewrite ?Ec, ?Es, ?Ei, ?Epu, ?Er, ?Ee, ?En, ?Hn, ?Hq, ?Hf; unfold pst; rewrite ?Epu; fold (pst (gh g)).
+    - exact A0.
+    - intros tk Hk. specialize (A1i tk Hk). lia.
+    - intros tk p Hk. specialize (A1p tk p Hk). lia.
+    - intros tk r Hk. destruct (A1r tk r Hk) as [B1 B2]. split; [lia|auto].
+    - intros tk e Hk. specialize (A1e tk e Hk). lia.
+    - xpt u; [rewrite Hpc'; exact A2t|apply A2].
+    - intros tk Hk Hr. specialize (A3 tk Hk Hr). ptw Hl.
+      destruct (Nat.eqb_spec (tsub (gh g) tk) t) as [E|Hne]; [|exact A3]. rewrite E, Hp in A3. rewrite Hpc'. exact A3.
+    - xpt u; [rewrite Hpc'; cbn [lpend]; rewrite app_nil_r; exact A4t|].
+      destruct (Hoth u Hne) as [E _]. rewrite E. intros tk [].
+    - xpt u; [rewrite Hpc'; cbn [lpend]; rewrite app_nil_r; exact A5t|].
+      destruct (Hoth u Hne) as [E _]. rewrite E. exact I.
+    - intros tk Hk He. right. destruct (A6 tk Hk He) as [B|[u B]].
+      + exists t. ptw Hl. rewrite Nat.eqb_refl, Hpc'. exact B.
+      + exfalso. destruct (Nat.eq_dec u t) as [->|Hne]; [rewrite Hp in B; exact B|].
+        destruct (Hoth u Hne) as [E _]. rewrite E in B. exact B.
+    - intros tk [].
+    - intros u tk0 _ _ f r [].
+    - exact A9.
+    - exact A10.
+  Qed.
+
+  (* a drainer invokes the queued task at the head of its local list *)
+  Lemma SK_callq c tk r :
+    clock (gh g') = S (clock (gh g)) -> tsub (gh g') = tsub (gh g) -> tinv (gh g') = tinv (gh g) ->
+    tpush (gh g') = tpush (gh g) -> tret (gh g') = tret (gh g) ->
+    texec (gh g') = fupd (texec (gh g)) tk (Some (clock (gh g))) ->
+    tcount (gh g') = fupd (tcount (gh g)) tk (S (tcount (gh g) tk)) ->
+    ntasks g' = ntasks g -> queue g' = queue g -> flag g' = flag g ->
+    at_ l = F_call (BQ c tk r) -> ctask (at_ l') = cdir c -> cphase (at_ l') = PhNew -> lpend (at_ l') = r ->
+    clr (at_ l') = false -> postchk (at_ l') = true -> SInv g' (upd ls t l').
+  Proof.
+    intros Ec Es Ei Epu Er Ee En Hn Hq Hf Hpc Hct Hph Hlp Hcl Hpo. sprep.
+    assert (holdsX (at_ l) = true) as Hx by (rewrite Hpc; reflexivity).
+    pose proof (fun u => others_no_list u Hx) as Hoth.
+    rewrite Hpc in *. cbn [ctask cphase lpend bpend bdir postchk holdsX prechk negb andb] in A2t, A4t, A5t, A8t.
+    rewrite <- app_comm_cons in A4t, A5t.
+    destruct (A4t tk (or_introl eq_refl)) as (Z1 & Z2 & Z3).
+    pose proof (ordered_head_notin _ _ _ A5t) as Nin. destruct A5t as [Ohd Otl].
+    assert (Qe : forall x, x <> tk -> texec (gh g') x = texec (gh g) x) by (intros x Hx'; rewrite Ee; apply fupd_ne; auto).
+    assert (Qe' : texec (gh g') tk = Some (clock (gh g))) by (rewrite Ee; apply fupd_eq).
+    destruct (tpush (gh g) tk) as [ptk|] eqn:Eptk; [clear Z3|congruence].
+    pose proof (A1p tk ptk Eptk) as Bptk.
+    constructor; rewrite ?Ec, ?Es, ?Ei, ?Epu, ?Er, ?Hn, ?Hq, ?Hf; unfold pst; rewrite ?Epu; fold (pst (gh g)).
+    - intros x Hk. assert (x <> tk) as Hx' by lia. rewrite (Qe _ Hx'), En, fupd_ne by exact Hx'. apply A0. exact Hk.
+    - intros x Hk. specialize (A1i x Hk). lia.
+    - intros x p Hk. specialize (A1p x p Hk). lia.
+    - intros x r0 Hk. destruct (A1r x r0 Hk) as [B1 B2]. split; [lia|].
+      destruct (Nat.eq_dec x tk) as [->|Hx']; [left; congruence|]. rewrite (Qe _ Hx'). exact B2.
+    - intros x e Hk. destruct (Nat.eq_dec x tk) as [->|Hx']; [rewrite Qe' in Hk; inversion Hk; lia|].
+      rewrite (Qe _ Hx') in Hk. specialize (A1e x e Hk). lia.
+    - xpt u.
+      + rewrite Hct, Hph. intros x E. destruct (A2t x E) as (B1 & B2 & B3 & B4 & B5).
+        assert (x <> tk) as Hx' by congruence. rewrite (Qe _ Hx'). repeat split; auto.
+      + intros x E. destruct (A2 u x E) as (B1 & B2 & B3 & B4). repeat split; auto.
+        destruct (cphase (pcof ls u)); auto.
+        * destruct B4 as [B4 B5]. assert (x <> tk) as Hx' by congruence. rewrite (Qe _ Hx'). auto.
+        * destruct B4 as [B4 B5]. assert (x <> tk) as Hx' by congruence. rewrite (Qe _ Hx'). auto.
+    - intros x Hk Hr. specialize (A3 x Hk Hr). ptw Hl.
+      destruct (Nat.eqb_spec (tsub (gh g) x) t) as [E|_]; [|exact A3]. rewrite E, Hp in A3. rewrite Hct. exact A3.
+    - xpt u.
+      + rewrite Hlp. intros x Hin. assert (x <> tk) as Hx' by congruence. rewrite (Qe _ Hx'). apply A4t. right. exact Hin.
+      + destruct (Hoth u Hne) as [E _]. rewrite E. cbn [app]. intros x Hin.
+        assert (In x (r ++ queue g)) as Hin' by (apply in_or_app; auto).
+        assert (x <> tk) as Hx' by congruence. rewrite (Qe _ Hx'). apply A4t. right. exact Hin'.
+    - xpt u; [rewrite Hlp; exact Otl|apply A5].
+    - intros x Hk He. assert (x <> tk) as Hx' by congruence. rewrite (Qe _ Hx') in He.
+      destruct (A6 x Hk He) as [B|[u B]]; [auto|right]. exists t. ptw Hl. rewrite Nat.eqb_refl, Hlp.
+      destruct (Nat.eq_dec u t) as [->|Hne].
+      * rewrite Hp in B. destruct B as [B|B]; [congruence|exact B].
+      * destruct (Hoth u Hne) as [E _]. rewrite E in B. destruct B.
+    - intros x Hin. destruct (A7 x Hin) as [B|[B|[u B]]]; auto. right; right. exists u. ptw Hl.
+      destruct (Nat.eqb_spec u t) as [->|Hne]; [rewrite Hp in B; discriminate|exact B].
+    - xpt u; [rewrite Hct; intros tk0 _; apply A8t; reflexivity|apply A8].
+    - intros x. rewrite En. destruct (Nat.eq_dec x tk) as [->|Hx'].
+      + rewrite fupd_eq, Qe', (A9 tk), Z2. reflexivity.
+      + rewrite fupd_ne, (Qe _ Hx') by exact Hx'. apply A9.
+    - intros f k r0 e' Hr Hlt Hk He.
+      assert (Hf' : exists e, texec (gh g) f = Some e /\ (k = tk \/ (e < e')%nat)).
+      { destruct (Nat.eq_dec k tk) as [->|Hk'].
+        - destruct (texec (gh g) f) as [e|] eqn:Ef; [exists e; auto|exfalso].
+          destruct (A1r f r0 Hr) as [_ [B|[p [B1 B2]]]]; [congruence|].
+          assert (In f ((tk :: r) ++ queue g)) as Hin.
+          { destruct (A6 f) as [B|[u B]]; [congruence|exact Ef|apply in_or_app; auto|].
+            destruct (Nat.eq_dec u t) as [->|Hne]; [rewrite Hp in B; apply in_or_app; auto|].
+            destruct (Hoth u Hne) as [E _]. rewrite E in B. destruct B. }
+          rewrite <- app_comm_cons in Hin. destruct Hin as [<-|Hin].
+          + rewrite Eptk in B1. inversion B1; subst p. lia.
+          + specialize (Ohd f Hin). unfold pst in Ohd. rewrite Eptk, B1 in Ohd. lia.
+        - rewrite (Qe _ Hk') in He. destruct (A10 f k r0 e' Hr Hlt Hk He) as [e [B1 B2]]. exists e; auto. }
+      destruct Hf' as [e [B1 B2]]. assert (f <> tk) as Hx' by congruence. rewrite (Qe _ Hx'). exists e. split; [exact B1|].
+      destruct B2 as [->|B2]; [|exact B2]. rewrite Qe' in He. inversion He; subst e'. apply (A1e f e B1).
+  Qed.
+
+  (* the direct path invokes its own functor, after the drain *)
+  Lemma SK_calld tk :
+    clock (gh g') = S (clock (gh g)) -> tsub (gh g') = tsub (gh g) -> tinv (gh g') = tinv (gh g) ->
+    tpush (gh g') = tpush (gh g) -> tret (gh g') = tret (gh g) ->
+    texec (gh g') = fupd (texec (gh g)) tk (Some (clock (gh g))) ->
+    tcount (gh g') = fupd (tcount (gh g)) tk (S (tcount (gh g) tk)) ->
+    ntasks g' = ntasks g -> queue g' = queue g -> flag g' = flag g ->
+    at_ l = F_call (BD tk) -> ctask (at_ l') = Some tk -> cphase (at_ l') = PhExec -> lpend (at_ l') = [] ->
+    clr (at_ l') = false -> SInv g' (upd ls t l').
+  Proof.
+    intros Ec Es Ei Epu Er Ee En Hn Hq Hf Hpc Hct Hph Hlp Hcl. sprep.
+    assert (holdsX (at_ l) = true) as Hx by (rewrite Hpc; reflexivity).
+    pose proof (fun u => others_no_list u Hx) as Hoth.
+    rewrite Hpc in *. cbn [ctask cphase lpend bpend bdir postchk holdsX prechk negb andb app] in A2t, A4t, A5t, A8t.
+    destruct (A2t tk eq_refl) as (Z1 & Z2 & Z3 & Z4 & Z5).
+    assert (Qe : forall x, x <> tk -> texec (gh g') x = texec (gh g) x) by (intros x Hx'; rewrite Ee; apply fupd_ne; auto).
+    assert (Qe' : texec (gh g') tk = Some (clock (gh g))) by (rewrite Ee; apply fupd_eq).
+    assert (Lt : forall u, lpend (pcof (upd ls t l') u) = lpend (pcof ls u)).
+    { intros u. ptw Hl. destruct (Nat.eqb_spec u t) as [->|Hne]; [rewrite Hlp, Hp; reflexivity|reflexivity]. }
+    assert (Nin : forall u x, In x (lpend (pcof ls u) ++ queue g) -> x <> tk).
+    { intros u x Hin. destruct (A4 u x Hin) as (_ & _ & B). congruence. }
+    constructor; rewrite ?Ec, ?Es, ?Ei, ?Epu, ?Er, ?Hn, ?Hq, ?Hf; unfold pst; rewrite ?Epu; fold (pst (gh g)).
+    - intros x Hk. assert (x <> tk) as Hx' by lia. rewrite (Qe _ Hx'), En, fupd_ne by exact Hx'. apply A0. exact Hk.
+    - intros x Hk. specialize (A1i x Hk). lia.
+    - intros x p Hk. specialize (A1p x p Hk). lia.
+    - intros x r0 Hk. destruct (A1r x r0 Hk) as [B1 B2]. split; [lia|].
+      destruct (Nat.eq_dec x tk) as [->|Hx']; [left; congruence|]. rewrite (Qe _ Hx'). exact B2.
+    - intros x e Hk. destruct (Nat.eq_dec x tk) as [->|Hx']; [rewrite Qe' in Hk; inversion Hk; lia|].
+      rewrite (Qe _ Hx') in Hk. specialize (A1e x e Hk). lia.
+    - xpt u.
+      + rewrite Hct, Hph. intros x E. inversion E; subst x. rewrite Qe'. repeat split; auto. discriminate.
+      + intros x E. destruct (A2 u x E) as (B1 & B2 & B3 & B4). assert (x <> tk) as Hx' by congruence.
+        rewrite (Qe _ Hx'). repeat split; auto.
+    - intros x Hk Hr. specialize (A3 x Hk Hr). ptw Hl.
+      destruct (Nat.eqb_spec (tsub (gh g) x) t) as [E|_]; [|exact A3]. rewrite E, Hp in A3. rewrite Hct. exact A3.
+    - intros u x. rewrite Lt. intros Hin. rewrite (Qe _ (Nin u x Hin)). apply (A4 u x Hin).
+    - intros u. rewrite Lt. apply A5.
+    - intros x Hk He. assert (x <> tk) as Hx' by congruence. rewrite (Qe _ Hx') in He.
+      destruct (A6 x Hk He) as [B|[u B]]; [auto|right]. exists u. rewrite Lt. exact B.
+    - intros x Hin. destruct (A7 x Hin) as [B|[B|[u B]]]; auto. right; right. exists u. ptw Hl.
+      destruct (Nat.eqb_spec u t) as [->|Hne]; [rewrite Hp in B; discriminate|exact B].
+    - xpt u; [rewrite Hct; intros tk0 _; apply A8t; reflexivity|apply A8].
+    - intros x. rewrite En. destruct (Nat.eq_dec x tk) as [->|Hx'].
+      + rewrite fupd_eq, Qe', (A9 tk), Z5. reflexivity.
+      + rewrite fupd_ne, (Qe _ Hx') by exact Hx'. apply A9.
+    - intros f k r0 e' Hr Hlt Hk He. assert (f <> tk) as Hx' by congruence. rewrite (Qe _ Hx').
+      destruct (Nat.eq_dec k tk) as [->|Hk'].
+      + rewrite Qe' in He. inversion He; subst e'.
+        destruct (texec (gh g) f) as [e|] eqn:Ef; [exists e; split; [reflexivity|apply (A1e f e Ef)]|exfalso].
+        destruct (A1r f r0 Hr) as [_ [B|[p [B1 B2]]]]; [congruence|].
+        assert (In f (queue g)) as Hin.
+        { destruct (A6 f) as [B|[u B]]; [congruence|exact Ef|exact B|].
+          destruct (Nat.eq_dec u t) as [->|Hne]; [rewrite Hp in B; destruct B|].
+          destruct (Hoth u Hne) as [E _]. rewrite E in B. destruct B. }
+        specialize (A8t tk eq_refl eq_refl f r0 Hin Hr). lia.
+      + rewrite (Qe _ Hk') in He. apply (A10 f k r0 e' Hr Hlt Hk He).
+  Qed.
+End SKinds.
+
+Ltac hsimp :=
+  gsimp; cbn [clock donelog tsub tinv tpush tret texec tcount trunner tfsets tpre
+              h_tick h_done h_new h_push h_ret h_exec h_fset].
+Ltac destruct_goal_matches :=
+  repeat match goal with |- context [match ?x with _ => _ end] => destruct x end.
+Ltac sside :=
+  hsimp; unfold after_drain, body_done; unfold cont;
+  first [ reflexivity | eassumption
+        | solve [unfold st_same; repeat split; reflexivity]
+        | solve [left; reflexivity] | solve [right; reflexivity] | solve [right; split; reflexivity]
+        | solve [cbn; discriminate]
+        | solve [destruct_goal_matches; cbn;
+                 first [ reflexivity | discriminate
+                       | intros; first [ discriminate | left; reflexivity
+                                       | right; split; [eassumption | split; reflexivity] ] ] ] ].
+
+Lemma SInv_init m th progs : SInv (gl (init m th progs)) (thr (init m th progs)).
+Proof.
+  assert (Q : forall u, pcof (map (fun p => Loc p Idle [] []) progs) u = Idle).
+  { intros u. unfold pcof, locof. rewrite nth_error_map. destruct (nth_error progs u); reflexivity. }
+  unfold init; cbn [gl thr]. constructor; cbn; intros; rewrite ?Q in *; cbn in *; try discriminate; try lia; try tauto; auto.
+Qed.
+
+Lemma SInv_step g ls t c l g' l' es :
+  Inv1 g ls -> SInv g ls -> nth_error ls t = Some l -> tstep t c g l = Some (g', l', es) -> SInv g' (upd ls t l').
+Proof.
+  intros H1 HS Hl Hs. destruct l as [pr p hd fu].
+  step_cases Hs.
+  all: try solve [eapply (SK_none _ _ _ _ _ _ H1 HS Hl); sside].
+  all: try solve [eapply (SK_new _ _ _ _ _ _ HS Hl); sside].
+  all: try solve [eapply (SK_push _ _ _ _ _ _ HS Hl); sside].
+  all: try solve [eapply (SK_ret _ _ _ _ _ _ HS Hl); sside].
+  all: try (destruct b).
+  all: try solve [eapply (SK_swap _ _ _ _ _ _ H1 HS Hl); sside].
+  all: try solve [eapply (SK_callq _ _ _ _ _ _ H1 HS Hl); sside].
+  all: try solve [eapply (SK_calld _ _ _ _ _ _ H1 HS Hl); sside].
+Qed.
+
+(* ================================================================== *)
+(* Layer 4: futures, the payload as the log of applied functors         *)
+(* ================================================================== *)
+Definition rtask (p : pc) : option nat :=
+  match p with F_rdb b | F_rde b | F_wrb b _ | F_wre b _ => Some (btask b) | _ => None end.
+Definition wval (p : pc) : option Z := match p with F_wrb _ v | F_wre _ v => Some v | _ => None end.
+Definition enc (fid : nat -> Z) (log : list nat) : Z := fold_left (fun v tk => v * 16 + fid tk) log 0.
+
+Lemma rtask_holdsX p tk : rtask p = Some tk -> holdsX p = true.
+Proof. destruct p; cbn; congruence. Qed.
+Lemma wval_holdsX p v : wval p = Some v -> holdsX p = true.
+Proof. destruct p; cbn; congruence. Qed.
+
+Lemma call_unexec g ls t b : SInv g ls -> pcof ls t = F_call b ->
+  texec (gh g) (btask b) = None /\ (btask b < ntasks g)%nat.
+Proof.
+  intros HS Hp. destruct b as [tk|c tk r]; cbn [btask].
+  - destruct (S2 _ _ HS t tk) as (B1 & _ & _ & B4); [rewrite Hp; reflexivity|]. rewrite Hp in B4. cbn in B4. tauto.
+  - destruct (S4 _ _ HS t tk) as (B1 & B2 & _); [rewrite Hp; cbn; auto|]. auto.
+Qed.
+
+Record FInv (g : glob) (ls : list loc) : Prop := {
+  F1 : forall tk, texec (gh g) tk = None -> tfut g tk = FPending /\ tfsets (gh g) tk = O;
+  F2 : forall u tk, rtask (pcof ls u) = Some tk ->
+       texec (gh g) tk <> None /\ tfsets (gh g) tk = O /\ tfut g tk = FPending /\
+       trunner (gh g) tk = Some u /\ tpre (gh g) tk = pay g;
+  F3 : forall tk, texec (gh g) tk <> None ->
+       (tfsets (gh g) tk = 1%nat /\ (tfut g tk = FExn \/ tfut g tk = FVal (tpre (gh g) tk * 16 + tfid g tk))) \/
+       (exists u, rtask (pcof ls u) = Some tk);
+  F4 : forall u v, wval (pcof ls u) = Some v -> v = pay g;
+  F5 : pay g = enc (tfid g) (donelog (gh g));
+  F6 : forall x, In x (donelog (gh g)) -> (x < ntasks g)%nat
+}.
+
+Lemma enc_ext f f' log : (forall x, In x log -> f x = f' x) -> enc f log = enc f' log.
+Proof.
+  unfold enc. generalize 0. induction log as [|a r IH]; intros z H; cbn; [reflexivity|].
+  rewrite (H a (or_introl eq_refl)). apply IH. intros x Hx. apply H. right. exact Hx.
+Qed.
+Lemma enc_snoc f log tk : enc f (log ++ [tk]) = enc f log * 16 + f tk.
+Proof. unfold enc. rewrite fold_left_app. reflexivity. Qed.
+
+Section FKinds.
+  Variables (g g' : glob) (ls : list loc) (t : nat) (l l' : loc).
+  Hypothesis H1 : Inv1 g ls.
+  Hypothesis HS : SInv g ls.
+  Hypothesis HF : FInv g ls.
+  Hypothesis Hl : nth_error ls t = Some l.
+  Let Hp := pcof_at _ _ _ Hl.
+  Ltac xpt u := intros u; ptw Hl; destruct (Nat.eqb_spec u t) as [->|Hne].
+  Ltac fprep :=
+    pose proof (F1 _ _ HF) as B1; pose proof (F2 _ _ HF) as B2; pose proof (F3 _ _ HF) as B3;
+    pose proof (F4 _ _ HF) as B4; pose proof (F5 _ _ HF) as B5; pose proof (F6 _ _ HF) as B6;
+    pose proof (B2 t) as B2t; pose proof (B4 t) as B4t; rewrite Hp in B2t, B4t.
+
+  (* when this thread is in an exclusive section, no other thread is inside a functor body *)
+  Lemma others_not_running u : holdsX (at_ l) = true -> u <> t ->
+    (forall x, rtask (pcof ls u) <> Some x) /\ (forall v, wval (pcof ls u) <> Some v).
+  Proof.
+    intros Hx Hne. rewrite <- Hp in Hx. destruct (excl_facts _ _ _ H1 Hx u) as [_ E].
+    split; intros x Hr; [apply rtask_holdsX in Hr|apply wval_holdsX in Hr]; auto.
+  Qed.
+
+  Lemma FK_none :
+    tfut g' = tfut g -> tfsets (gh g') = tfsets (gh g) -> texec (gh g') = texec (gh g) ->
+    trunner (gh g') = trunner (gh g) -> tpre (gh g') = tpre (gh g) -> pay g' = pay g ->
+    donelog (gh g') = donelog (gh g) -> ntasks g' = ntasks g -> tfid g' = tfid g ->
+    rtask (at_ l') = rtask (at_ l) ->
+    (forall v, wval (at_ l') = Some v -> wval (at_ l) = Some v \/ v = pay g) -> FInv g' (upd ls t l').
+  Proof.
+    intros E1 E2 E3 E4 E5 E6 E7 E8 E9 Hr Hw. fprep.
+    constructor; rewrite ?E1, ?E2, ?E3, ?E4, ?E5, ?E6, ?E7, ?E8, ?E9; auto.
+    - xpt u; [rewrite Hr; exact B2t|apply B2].
+    - intros tk He. destruct (B3 tk He) as [C|[u C]]; [auto|right]. exists u. ptw Hl.
+      destruct (Nat.eqb_spec u t) as [->|Hne]; [rewrite Hr, <- Hp|]; exact C.
+    - xpt u; [|apply B4]. intros v Hv. destruct (Hw v Hv) as [C|C]; auto.
+  Qed.
+
+  Lemma FK_new fid :
+    let n := ntasks g in
+    tfut g' = tfut g -> tfsets (gh g') = fupd (tfsets (gh g)) n O -> texec (gh g') = fupd (texec (gh g)) n None ->
+    trunner (gh g') = fupd (trunner (gh g)) n None -> tpre (gh g') = tpre (gh g) -> pay g' = pay g ->
+    donelog (gh g') = donelog (gh g) -> ntasks g' = S n -> tfid g' = fupd (tfid g) n fid ->
+    at_ l = Idle -> at_ l' = M_try n -> FInv g' (upd ls t l').
+  Proof.
+    intros n E1 E2 E3 E4 E5 E6 E7 E8 E9 Hpc Hpc'. fprep.
+    destruct (S0 _ _ HS n (le_n _)) as (_ & _ & Z3 & _). destruct (B1 n Z3) as [Z5 Z6].
+    assert (Qe : forall x, texec (gh g') x = texec (gh g) x).
+    { intros x. rewrite E3. unfold fupd. destruct (Nat.eqb_spec x n); congruence. }
+    assert (Qs : forall x, tfsets (gh g') x = tfsets (gh g) x).
+    { intros x. rewrite E2. unfold fupd. destruct (Nat.eqb_spec x n); congruence. }
+    assert (Rt : forall u, rtask (pcof (upd ls t l') u) = rtask (pcof ls u)).
+    { intros u. ptw Hl. destruct (Nat.eqb_spec u t) as [->|Hne]; [rewrite Hpc', Hp, Hpc; reflexivity|reflexivity]. }
+    assert (Wt : forall u, wval (pcof (upd ls t l') u) = wval (pcof ls u)).
+    { intros u. ptw Hl. destruct (Nat.eqb_spec u t) as [->|Hne]; [rewrite Hpc', Hp, Hpc; reflexivity|reflexivity]. }
+    constructor; rewrite ?E1, ?E5, ?E6, ?E7, ?E8.
+    - intros tk. rewrite Qe, Qs. apply B1.
+    - intros u tk. rewrite Rt, Qe, Qs. intros Hr. destruct (B2 u tk Hr) as (C1 & C2 & C3 & C4 & C5).
+      repeat split; auto. rewrite E4, fupd_ne; [exact C4|]. intros ->. congruence.
+    - intros tk. rewrite Qe, Qs. intros He. assert (tk <> n) as Hk by (intros ->; congruence).
+      rewrite E9, fupd_ne by exact Hk. destruct (B3 tk He) as [C|[u C]]; [auto|right]. exists u. rewrite Rt. exact C.
+    - intros u v. rewrite Wt. apply B4.
+    - rewrite B5. apply enc_ext. intros x Hx. rewrite E9, fupd_ne; [reflexivity|]. specialize (B6 x Hx). fold n in B6. lia.
+    - intros x Hx. specialize (B6 x Hx). fold n in B6. lia.
+  Qed.
+
+  (* the functor is invoked and does not throw *)
+  Lemma FK_call b :
+    let tk := btask b in
+    tfut g' = tfut g -> tfsets (gh g') = tfsets (gh g) -> texec (gh g') = fupd (texec (gh g)) tk (Some (clock (gh g))) ->
+    trunner (gh g') = fupd (trunner (gh g)) tk (Some t) -> tpre (gh g') = fupd (tpre (gh g)) tk (pay g) -> pay g' = pay g ->
+    donelog (gh g') = donelog (gh g) -> ntasks g' = ntasks g -> tfid g' = tfid g ->
+    at_ l = F_call b -> at_ l' = F_rdb b -> FInv g' (upd ls t l').
+  Proof.
+    intros tk E1 E2 E3 E4 E5 E6 E7 E8 E9 Hpc Hpc'. fprep.
+    assert (holdsX (at_ l) = true) as Hx by (rewrite Hpc; reflexivity).
+    pose proof (fun u => others_not_running u Hx) as Hoth.
+    destruct (call_unexec g ls t b HS) as [Z1 Z2]; [rewrite Hp; exact Hpc|]. fold tk in Z1, Z2.
+    destruct (B1 tk Z1) as [Z3 Z4].
+    assert (Qe : forall x, x <> tk -> texec (gh g') x = texec (gh g) x) by (intros x Hx'; rewrite E3; apply fupd_ne; auto).
+    assert (Qe' : texec (gh g') tk = Some (clock (gh g))) by (rewrite E3; apply fupd_eq).
+    constructor; rewrite ?E1, ?E2, ?E6, ?E7, ?E8, ?E9; auto.
+    - intros x He. assert (x <> tk) as Hx' by congruence. rewrite (Qe _ Hx') in He. apply B1. exact He.
+    - xpt u.
+      + rewrite Hpc'. cbn [rtask]. intros x E. inversion E; subst x. fold tk. rewrite Qe', E4, E5, !fupd_eq.
+        repeat split; auto. discriminate.
+      + intros x Hr. exfalso. destruct (Hoth u Hne) as [C _]. apply (C x Hr).
+    - intros x He. destruct (Nat.eq_dec x tk) as [->|Hx'].
+      + right. exists t. ptw Hl. rewrite Nat.eqb_refl, Hpc'. reflexivity.
+      + rewrite (Qe _ Hx') in He. rewrite E5, fupd_ne by exact Hx'. destruct (B3 x He) as [C|[u C]]; [auto|exfalso].
+        destruct (Nat.eq_dec u t) as [->|Hne]; [rewrite Hp, Hpc in C; discriminate|].
+        destruct (Hoth u Hne) as [D _]. apply (D x C).
+    - xpt u; [rewrite Hpc'; discriminate|apply B4].
+  Qed.
+
+  (* the functor is invoked and throws: the exception is stored in the future cell *)
+  Lemma FK_throw b :
+    let tk := btask b in
+    tfut g' = fupd (tfut g) tk FExn -> tfsets (gh g') = fupd (tfsets (gh g)) tk (S (tfsets (gh g) tk)) ->
+    texec (gh g') = fupd (texec (gh g)) tk (Some (clock (gh g))) ->
+    trunner (gh g') = fupd (trunner (gh g)) tk (Some t) -> tpre (gh g') = fupd (tpre (gh g)) tk (pay g) -> pay g' = pay g ->
+    donelog (gh g') = donelog (gh g) -> ntasks g' = ntasks g -> tfid g' = tfid g ->
+    at_ l = F_call b -> rtask (at_ l') = None -> wval (at_ l') = None -> FInv g' (upd ls t l').
+  Proof.
+    intros tk E1 E2 E3 E4 E5 E6 E7 E8 E9 Hpc Hr' Hw'. fprep.
+    assert (holdsX (at_ l) = true) as Hx by (rewrite Hpc; reflexivity).
+    pose proof (fun u => others_not_running u Hx) as Hoth.
+    destruct (call_unexec g ls t b HS) as [Z1 Z2]; [rewrite Hp; exact Hpc|]. fold tk in Z1, Z2.
+    destruct (B1 tk Z1) as [Z3 Z4].
+    assert (Qe : forall x, x <> tk -> texec (gh g') x = texec (gh g) x) by (intros x Hx'; rewrite E3; apply fupd_ne; auto).
+    constructor; rewrite ?E6, ?E7, ?E8, ?E9; auto.
+    - intros x He. assert (x <> tk) as Hx'. { intros ->. rewrite E3, fupd_eq in He. discriminate. }
+      rewrite (Qe _ Hx') in He. rewrite E1, E2, !fupd_ne by exact Hx'. apply B1. exact He.
+    - xpt u; [rewrite Hr'; discriminate|]. intros x Hr. exfalso. destruct (Hoth u Hne) as [C _]. apply (C x Hr).
+    - intros x He. destruct (Nat.eq_dec x tk) as [->|Hx'].
+      + left. rewrite E1, E2, !fupd_eq, Z4. auto.
+      + rewrite (Qe _ Hx') in He. rewrite E1, E2, E5, !fupd_ne by exact Hx'. destruct (B3 x He) as [C|[u C]]; [auto|exfalso].
+        destruct (Nat.eq_dec u t) as [->|Hne]; [rewrite Hp, Hpc in C; discriminate|].
+        destruct (Hoth u Hne) as [D _]. apply (D x C).
+    - xpt u; [rewrite Hw'; discriminate|apply B4].
+  Qed.
+
+  (* the write window closes: the payload changes, the result is stored in the future cell *)
+  Lemma FK_wre b v :
+    let tk := btask b in
+    let nv := v * 16 + tfid g tk in
+    tfut g' = fupd (tfut g) tk (FVal nv) -> tfsets (gh g') = fupd (tfsets (gh g)) tk (S (tfsets (gh g) tk)) ->
+    texec (gh g') = texec (gh g) -> trunner (gh g') = trunner (gh g) -> tpre (gh g') = tpre (gh g) -> pay g' = nv ->
+    donelog (gh g') = donelog (gh g) ++ [tk] -> ntasks g' = ntasks g -> tfid g' = tfid g ->
+    at_ l = F_wre b v -> rtask (at_ l') = None -> wval (at_ l') = None -> FInv g' (upd ls t l').
+  Proof.
+    intros tk nv E1 E2 E3 E4 E5 E6 E7 E8 E9 Hpc Hr' Hw'. fprep.
+    assert (holdsX (at_ l) = true) as Hx by (rewrite Hpc; reflexivity).
+    pose proof (fun u => others_not_running u Hx) as Hoth.
+    rewrite Hpc in B2t, B4t. cbn [rtask wval] in B2t, B4t. fold tk in B2t.
+    destruct (B2t tk eq_refl) as (Z1 & Z2 & Z3 & Z4 & Z5). pose proof (B4t v eq_refl) as Zv.
+    constructor; rewrite ?E3, ?E4, ?E5, ?E6, ?E7, ?E8, ?E9; auto.
+    - intros x He. assert (x <> tk) as Hx' by congruence. rewrite E1, E2, !fupd_ne by exact Hx'. apply B1. exact He.
+    - xpt u; [rewrite Hr'; discriminate|]. intros x Hr. exfalso. destruct (Hoth u Hne) as [C _]. apply (C x Hr).
+    - intros x He. destruct (Nat.eq_dec x tk) as [->|Hx'].
+      + left. rewrite E1, E2, !fupd_eq, Z2. split; [reflexivity|right]. unfold nv. rewrite Z5, Zv. reflexivity.
+      + rewrite E1, E2, !fupd_ne by exact Hx'. destruct (B3 x He) as [C|[u C]]; [auto|exfalso].
+        destruct (Nat.eq_dec u t) as [->|Hne]; [rewrite Hp, Hpc in C; cbn in C; fold tk in C; congruence|].
+        destruct (Hoth u Hne) as [D _]. apply (D x C).
+    - xpt u; [rewrite Hw'; discriminate|]. intros w Hw. exfalso. destruct (Hoth u Hne) as [_ D]. apply (D w Hw).
+    - rewrite enc_snoc, <- B5. unfold nv. rewrite Zv. reflexivity.
+    - intros x Hx'. apply in_app_or in Hx' as [Hx'|[<-|[]]]; [auto|].
+      destruct (Nat.lt_ge_cases tk (ntasks g)) as [Hlt|Hge]; [exact Hlt|].
+      destruct (S0 _ _ HS tk Hge) as (_ & _ & C & _). congruence.
+  Qed.
+End FKinds.
+
+Lemma FInv_init m th progs : FInv (gl (init m th progs)) (thr (init m th progs)).
+Proof.
+  assert (Q : forall u, pcof (map (fun p => Loc p Idle [] []) progs) u = Idle).
+  { intros u. unfold pcof, locof. rewrite nth_error_map. destruct (nth_error progs u); reflexivity. }
+  unfold init; cbn [gl thr]. constructor; cbn; intros; rewrite ?Q in *; cbn in *; try discriminate; try lia; try tauto; auto.
+Qed.
+
+Ltac fside :=
+  hsimp; unfold after_drain, body_done; unfold cont;
+  first [ reflexivity | eassumption
+        | solve [destruct_goal_matches; cbn;
+                 first [ reflexivity | intros; first [discriminate | left; assumption | right; congruence] ] ] ].
+
+Lemma FInv_step g ls t c l g' l' es :
+  Inv1 g ls -> SInv g ls -> FInv g ls -> nth_error ls t = Some l -> tstep t c g l = Some (g', l', es) ->
+  FInv g' (upd ls t l').
+Proof.
+  intros H1 HS HF Hl Hs. destruct l as [pr p hd fu].
+  step_cases Hs.
+  all: try solve [eapply (FK_none _ _ _ _ _ _ HF Hl); fside].
+  all: try solve [eapply (FK_new _ _ _ _ _ _ HS HF Hl); fside].
+  all: try solve [eapply (FK_call _ _ _ _ _ _ H1 HS HF Hl); fside].
+  all: try solve [eapply (FK_throw _ _ _ _ _ _ H1 HS HF Hl); fside].
+  all: try solve [eapply (FK_wre _ _ _ _ _ _ H1 HS HF Hl); fside].
+Qed.
+
+(* ================================================================== *)
+(* The invariant of reachable states                                    *)
+(* ================================================================== *)
+Record Inv (g : glob) (ls : list loc) : Prop := {
+  I_1 : Inv1 g ls; I_W : WInv g ls; I_S : SInv g ls; I_F : FInv g ls
+}.
+
+Lemma Inv_init m th progs : Inv (gl (init m th progs)) (thr (init m th progs)).
+Proof. constructor; [apply Inv1_init|apply WInv_init|apply SInv_init|apply FInv_init]. Qed.
+
+Lemma Inv_step g ls t c l g' l' es :
+  Inv g ls -> nth_error ls t = Some l -> tstep t c g l = Some (g', l', es) -> Inv g' (upd ls t l').
+Proof.
+  intros [H1 HW HS HF] Hl Hs. constructor.
+  - eapply Inv1_step; eauto.
+  - eapply WInv_step; eauto.
+  - eapply SInv_step; eauto.
+  - eapply FInv_step; eauto.
+Qed.
+
+Definition R (m : Z) (th : list Z) (progs : list (list op)) (s : sysD) : Prop :=
+  reachable glob loc tstep (init m th progs) s.
+
+Lemma R_inv m th progs s : R m th progs s -> Inv (gl s) (thr s).
+Proof. intros H. eapply reachable_inv; [apply Inv_step|apply Inv_init|exact H]. Qed.
